@@ -65,6 +65,10 @@ class IdentManager:
     def __init__(self):
         self.current = 0
 
+    def __getstate__(self):
+        # the owning thread belongs to the process that pickles; a copy is owned by nobody
+        return {'current': 0}
+
     def __enter__(self):
         self.current = get_ident()
 
